@@ -73,6 +73,7 @@ def tier_a_jobs(impl, scripts, aspects, workers_default=15, no_layout=False):
         touched = {}       # job -> set of (arch, chunk)
         prev_pos = {}
         prev_hv, prev_archs, had_do, prev_hsh = None, None, False, {}
+        n_do = 0
         typed = {}
         pending_acts = []
         workers = workers_default
@@ -141,6 +142,7 @@ def tier_a_jobs(impl, scripts, aspects, workers_default=15, no_layout=False):
                 structural_marks()
             if op == 'jobdo':
                 had_do = True
+                n_do += 1
             if op in ('runjob', 'runtyped') and had_do and prev_hv is not None:
                 # the callback made structural calls (deferred to the end of the run): what the run saw is the state before it
                 hv, archs, pos, hsh = prev_hv, prev_archs, dict(prev_pos), prev_hsh
@@ -260,12 +262,23 @@ def tier_a_jobs(impl, scripts, aspects, workers_default=15, no_layout=False):
                 pending_acts = []
             if op in ('runjob', 'runtyped') and had_do:
                 had_do = False
+                pre_archs_ = archs
                 archs = parse_A(b); hv = parse_Hvals(b); hsh = parse_Hshared(b)
                 pos = {}
                 for ai_, a_ in archs.items():
                     for p2_, h2_ in enumerate(a_['ents']):
                         pos[h2_] = (ai_, p2_)
                 structural_marks()
+                # the flush at the end of the run applied up to n_do structural commands one after the other: entities may have
+                # arrived at the end of an archetype and left again (or the other way round) without a trace in the final occupancy.
+                # Arrivals and departures happen at the tail: every chunk the tail may have crossed counts as touched
+                for ai_ in set(archs) | set(pre_archs_ or {}):
+                    n0_ = len((pre_archs_ or {}).get(ai_, {'ents': []})['ents']); n1_ = len(archs.get(ai_, {'ents': []})['ents'])
+                    cs_ = max(1, (archs.get(ai_) or pre_archs_[ai_])['cs'])
+                    for p_ in range(max(0, min(n0_, n1_) - n_do), max(n0_, n1_) + n_do + 1):
+                        for j_ in touched:
+                            touched[j_].add((ai_, p_ // cs_))
+                n_do = 0
             prev_pos = pos
             prev_hv, prev_archs, prev_hsh = hv, archs, hsh
         if fail:
